@@ -5,10 +5,13 @@
    (MergeP.msg_unknown_loop_k)  a run of rejected fields inside any input is appended in input order
    msg_unknown_reemitted        Marshal writes the unknown bytes after the known fields
    msg_discard_unknown          DiscardUnknown: no message of the tree keeps unknown bytes
-   msg_schema_evolution_arbitrary_bytes_refuted, msg_schema_evolution_example *)
-From Coq Require Import List Arith NArith ZArith Lia Bool.
-From PB Require Import Base.PBytes Wire.WireModel Wire.ScanP Msg.MsgSchema Msg.MsgValue Msg.MsgEnc Msg.MsgDec Msg.MsgValid
-  Msg.MsgAssocP Msg.MsgSizeP Msg.MsgRoundP Msg.MsgExample Msg.UnkModel.
+   msg_schema_evolution_arbitrary_bytes_refuted, msg_schema_evolution_example
+   msg_schema_evolution_flat    schema evolution for messages whose populated fields are of scalar kind *)
+From Coq Require Import List Arith NArith ZArith Lia Bool Permutation.
+From Coq Require Import ZifyBool ZifyNat ZifyN.
+From PB Require Import Base.PBytes Wire.WireModel Wire.VarintP Wire.ScanP Msg.MsgSchema Msg.MsgValue Msg.MsgUtf8 Msg.MsgEnc Msg.MsgDec Msg.MsgValid
+  Msg.MsgWireP Msg.MsgScalarP Msg.MsgAssocP Msg.MsgSizeP Msg.MsgRoundP Msg.MsgExample Msg.UnkModel.
+Ltac Zify.zify_post_hook ::= Z.div_mod_to_equations.
 Import ListNotations.
 Open Scope N_scope.
 
@@ -190,3 +193,457 @@ Example msg_schema_evolution_example :
   (exists v', msg_decode true (msg_restrict ex_keep ex_schema) 3 0 (msg_encode ex_schema 0 ex_msg) = DOk v' /\
               msg_has_unknown v' = true /\ v' <> ex_msg).
 Proof. split; [vm_compute; reflexivity|]. eexists. split; [vm_compute; reflexivity|]. split; [vm_compute; reflexivity|discriminate]. Qed.
+
+(* ================= schema evolution, scalar-kinded fields ================= *)
+(* ---------- the restricted schema ---------- *)
+Lemma msg_restrict_from_nth keep : forall S k tid,
+  nth_error (msg_restrict_from keep k S) tid =
+  match nth_error S tid with
+  | Some md => Some (filter (fun fd => keep (k + tid)%nat (f_num fd)) md)
+  | None => None
+  end.
+Proof.
+  induction S as [|md S IH]; intros k tid; cbn [msg_restrict_from]; [destruct tid; reflexivity|].
+  destruct tid as [|tid]; cbn [nth_error].
+  - rewrite Nat.add_0_r. reflexivity.
+  - rewrite IH. replace (Datatypes.S k + tid)%nat with (k + Datatypes.S tid)%nat by lia. reflexivity.
+Qed.
+
+Lemma msg_find_filter (f : N -> bool) : forall md num,
+  msg_find_field (filter (fun fd => f (f_num fd)) md) num =
+  if f num then msg_find_field md num else None.
+Proof.
+  induction md as [|fd md IH]; intros num; cbn [filter msg_find_field]; [destruct (f num); reflexivity|].
+  destruct (N.eqb_spec (f_num fd) num) as [E|E].
+  - rewrite E. destruct (f num) eqn:Hf.
+    + cbn [msg_find_field]. rewrite <- E at 1. rewrite N.eqb_refl. reflexivity.
+    + rewrite IH, Hf. reflexivity.
+  - destruct (f (f_num fd)); [cbn [msg_find_field]; destruct (N.eqb_spec (f_num fd) num); [congruence|]|]; apply IH.
+Qed.
+
+(* ---------- scalar-kinded fields do not look at sub-message encoders / typing ---------- *)
+Lemma msg_typed_field_scalar slow eb tv tv2 eb' tv' tv2' has2 fd vs sk :
+  f_kind fd = KS sk ->
+  msg_typed_field slow eb tv tv2 has2 fd vs = msg_typed_field slow eb' tv' tv2' has2 fd vs.
+Proof. intros Hk. unfold msg_typed_field, msg_typed_elem, msg_typed_entry. rewrite Hk. reflexivity. Qed.
+Lemma msg_szok_field_scalar sb ok sb' ok' fd vs sk :
+  f_kind fd = KS sk -> msg_szok_field sb ok fd vs = msg_szok_field sb' ok' fd vs.
+Proof. intros Hk. unfold msg_szok_field, msg_szok_elem, msg_szok_entry, msg_size_elem. rewrite Hk. reflexivity. Qed.
+Lemma msg_enc_field_scalar eb eb' fd vs sk :
+  f_kind fd = KS sk -> msg_enc_field eb fd vs = msg_enc_field eb' fd vs.
+Proof. intros Hk. unfold msg_enc_field, msg_enc_entry, msg_enc_elem. rewrite Hk. reflexivity. Qed.
+
+Lemma msg_perm_filter_split {A} (f : A -> bool) (l : list A) :
+  Permutation (filter f l ++ filter (fun x => negb (f x)) l) l.
+Proof.
+  induction l as [|a l IH]; [reflexivity|]. cbn [filter]. destruct (f a); cbn [negb app].
+  - constructor. exact IH.
+  - etransitivity; [apply Permutation_sym, Permutation_middle|]. constructor. exact IH.
+Qed.
+
+Lemma msg_firstn_len' {A} (a b : list A) n : n = length a -> firstn n (a ++ b) = a.
+Proof. intros ->. induction a as [|x a IH]; [reflexivity|]. cbn [length app firstn]. now rewrite IH. Qed.
+
+Section EvoDec.
+  Variable S' : schema.
+  Notation dm := (msg_decode_msg true S').
+  Variables (d tid : nat) (md' : mdesc) (grp : N).
+  Hypothesis Hmd' : nth_error S' tid = Some md'.
+  Notation has2 := (match d with O => false | _ => true end).
+
+  (* one well-formed field that md' rejects, on the reflection path: kept verbatim *)
+  Lemma msg_dm_unknown_field num typ val tail accf U g w :
+    1 <= num -> num <= msg_max_num -> typ < 8 -> typ <> 4 ->
+    msg_rejects md' has2 num typ = true ->
+    parse_val default_dep num typ (val ++ tail) = Ok (w, tail) ->
+    (length (enc_tag num typ ++ val ++ tail) < length g)%nat ->
+    exists g2, (length tail < length g2)%nat /\
+      dm (Datatypes.S d) tid grp g (enc_tag num typ ++ val ++ tail) (accf, U) =
+      dm (Datatypes.S d) tid grp g2 tail (accf, U ++ enc_tag num typ ++ val).
+  Proof.
+    intros Hlo Hhi Ht Ht4 Hrej Hpv Hg. destruct g as [|x g]; [cbn in Hg; lia|].
+    exists g. split.
+    - destruct (msgw_enc_tag_nonempty num typ) as (b & r & E). rewrite E in Hg.
+      cbn [length app] in Hg. rewrite !app_length in Hg. lia.
+    - rewrite (msg_dm_unfold true S' d tid grp md' x g _ (accf, U) Hmd').
+      destruct (msgw_enc_tag_nonempty num typ) as (b & r & E).
+      assert (Hne : exists b0 r0, enc_tag num typ ++ val ++ tail = b0 :: r0)
+        by (rewrite E; eexists; eexists; reflexivity).
+      destruct Hne as (b0 & r0 & E0). rewrite E0. cbv iota. rewrite <- E0.
+      rewrite msg_max_num_eq in Hhi.
+      rewrite msgw_dec_tag_enc by lia.
+      replace (msg_max_num <? num) with false by (rewrite msg_max_num_eq; lia).
+      rewrite andb_false_r. cbv zeta.
+      rewrite msg_rejects_step; [|exact Hrej].
+      unfold msg_unknown. rewrite Hpv. cbn [fst snd]. f_equal. f_equal. f_equal. f_equal.
+      + apply msg_firstn_len'. rewrite !app_length. lia.
+      + apply msg_firstn_len'. rewrite !app_length. lia.
+  Qed.
+
+  Variable S : schema.   (* the schema of the encoder *)
+  Notation eb := (msg_enc_body S).
+
+  Lemma msg_dm_deleted_elems num sk : forall vs accf U tail g,
+    1 <= num -> num <= msg_max_num ->
+    msg_find_field md' num = None ->
+    Forall (fun v => match v with VS s => sk_ok sk s = true /\ msg_wval_ok (sk_enc sk s) = true | _ => False end) vs ->
+    (length (flat_map (fun e => msg_enc_elem eb num (KS sk) e) vs ++ tail) < length g)%nat ->
+    exists g2, (length tail < length g2)%nat /\
+      dm (Datatypes.S d) tid grp g (flat_map (fun e => msg_enc_elem eb num (KS sk) e) vs ++ tail) (accf, U) =
+      dm (Datatypes.S d) tid grp g2 tail (accf, U ++ flat_map (fun e => msg_enc_elem eb num (KS sk) e) vs).
+  Proof.
+    induction vs as [|v vs IH]; intros accf U tail g Hlo Hhi Hnone Hall Hg.
+    - exists g. cbn [flat_map app] in *. rewrite app_nil_r. split; [exact Hg|reflexivity].
+    - inversion Hall as [|? ? Hv Hvs]; subst. destruct v as [s| |]; try contradiction. destruct Hv as [Hok Hw].
+      cbn [flat_map msg_enc_elem] in *. rewrite <- !app_assoc in *.
+      destruct (msg_dm_unknown_field num (sk_wt sk) (msg_enc_scalar sk s)
+                  (flat_map (fun e => msg_enc_elem eb num (KS sk) e) vs ++ tail) accf U g (sk_enc sk s) Hlo Hhi)
+        as (g1 & Hg1 & E1); [destruct sk; cbn; lia|destruct sk; cbn; lia| | |exact Hg|].
+      + unfold msg_rejects. rewrite Hnone. reflexivity.
+      + apply msg_parse_scalar; assumption.
+      + destruct (IH accf (U ++ enc_tag num (sk_wt sk) ++ msg_enc_scalar sk s) tail g1 Hlo Hhi Hnone Hvs Hg1) as (g2 & Hg2 & E2).
+        exists g2. split; [exact Hg2|]. etransitivity; [exact E1|]. etransitivity; [exact E2|]. rewrite <- !app_assoc. reflexivity.
+  Qed.
+
+  Lemma msg_dm_deleted_len num payload accf U tail g :
+    1 <= num -> num <= msg_max_num -> msg_find_field md' num = None ->
+    N.of_nat (length payload) < 2^64 ->
+    (length (enc_tag num 2 ++ enc_bytes payload ++ tail) < length g)%nat ->
+    exists g2, (length tail < length g2)%nat /\
+      dm (Datatypes.S d) tid grp g (enc_tag num 2 ++ enc_bytes payload ++ tail) (accf, U) =
+      dm (Datatypes.S d) tid grp g2 tail (accf, U ++ enc_tag num 2 ++ enc_bytes payload).
+  Proof.
+    intros Hlo Hhi Hnone Hlen Hg.
+    apply (msg_dm_unknown_field num 2 (enc_bytes payload) tail accf U g (WLen payload)); try assumption; try lia.
+    - unfold msg_rejects. rewrite Hnone. reflexivity.
+    - rewrite msg_parse_val_len, (msgw_dec_bytes_enc _ _ Hlen). reflexivity.
+  Qed.
+
+  Lemma msg_dm_deleted_entries num kk sk : forall es accf U tail g,
+    1 <= num -> num <= msg_max_num -> msg_find_field md' num = None ->
+    Forall (fun e => msg_szok_entry (msg_size_body S) (msg_sizes_ok S) kk (KS sk) e = true /\
+                     match e with VEntry _ (VS _) => True | _ => False end) es ->
+    (length (flat_map (fun e => msg_enc_entry eb num kk (KS sk) e) es ++ tail) < length g)%nat ->
+    exists g2, (length tail < length g2)%nat /\
+      dm (Datatypes.S d) tid grp g (flat_map (fun e => msg_enc_entry eb num kk (KS sk) e) es ++ tail) (accf, U) =
+      dm (Datatypes.S d) tid grp g2 tail (accf, U ++ flat_map (fun e => msg_enc_entry eb num kk (KS sk) e) es).
+  Proof.
+    induction es as [|e es IH]; intros accf U tail g Hlo Hhi Hnone Hall Hg.
+    - exists g. cbn [flat_map app] in *. rewrite app_nil_r. split; [exact Hg|reflexivity].
+    - inversion Hall as [|? ? [Hsz Hshape] Hes]; subst.
+      destruct e as [|?|key [s| |]]; try contradiction.
+      cbn [flat_map msg_enc_entry] in *. rewrite <- !app_assoc in *.
+      cbn [msg_szok_entry] in Hsz.
+      apply andb_true_iff in Hsz. destruct Hsz as [Hsz Hblen].
+      apply andb_true_iff in Hsz. destruct Hsz as [Hkw Hvsz].
+      assert (Hbody : N.of_nat (length (msg_enc_key kk key ++ msg_enc_elem eb 2 (KS sk) (VS s))) < 2^64).
+      { rewrite app_length, Nnat.Nat2N.inj_add.
+        rewrite <- (msg_size_key_eq kk key Hkw).
+        rewrite <- (msg_size_elem_eq (msg_size_body S) eb (msg_sizes_ok S) 2 (KS sk) (VS s));
+          [rewrite <- msg_two64_eq; lia|cbn; lia|apply (proj1 (msg_size_eq_deep S (VS s)))|exact Hvsz]. }
+      destruct (msg_dm_deleted_len num (msg_enc_key kk key ++ msg_enc_elem eb 2 (KS sk) (VS s)) accf U
+                  (flat_map (fun e => msg_enc_entry eb num kk (KS sk) e) es ++ tail) g
+                  Hlo Hhi Hnone Hbody Hg) as (g1 & Hg1 & E1).
+      destruct (IH accf (U ++ enc_tag num 2 ++ enc_bytes (msg_enc_key kk key ++ msg_enc_elem eb 2 (KS sk) (VS s))) tail g1
+                  Hlo Hhi Hnone Hes Hg1) as (g2 & Hg2 & E2).
+      exists g2. split; [exact Hg2|]. etransitivity; [exact E1|]. etransitivity; [exact E2|]. rewrite <- !app_assoc. reflexivity.
+  Qed.
+
+  (* a scalar-kinded field of the full schema that md' does not have: all its occurrences are kept *)
+  Lemma msg_dm_deleted_field slow tv tv2 h2 fd vs sk accf U tail g :
+    f_kind fd = KS sk -> msg_find_field md' (f_num fd) = None ->
+    msg_typed_field slow eb tv tv2 h2 fd vs = true ->
+    msg_szok_field (msg_size_body S) (msg_sizes_ok S) fd vs = true ->
+    (length (msg_enc_field eb fd vs ++ tail) < length g)%nat ->
+    exists g2, (length tail < length g2)%nat /\
+      dm (Datatypes.S d) tid grp g (msg_enc_field eb fd vs ++ tail) (accf, U) =
+      dm (Datatypes.S d) tid grp g2 tail (accf, U ++ msg_enc_field eb fd vs).
+  Proof.
+    intros Hk Hnone Hty Hsz Hg.
+    unfold msg_typed_field in Hty. unfold msg_szok_field in Hsz. unfold msg_enc_field in *.
+    apply andb_true_iff in Hty. destruct Hty as [Hnum Hty].
+    apply andb_true_iff in Hnum. destruct Hnum as [Hlo Hhi].
+    apply andb_true_iff in Hsz. destruct Hsz as [_ Hsz].
+    assert (Hlo' : 1 <= f_num fd) by lia. assert (Hhi' : f_num fd <= msg_max_num) by lia.
+    rewrite Hk in *.
+    assert (Hgood : forallb (msg_typed_elem slow eb tv fd) vs = true ->
+                    forallb (msg_szok_elem (msg_size_body S) (msg_sizes_ok S) (KS sk)) vs = true ->
+                    Forall (fun v => match v with VS s => sk_ok sk s = true /\ msg_wval_ok (sk_enc sk s) = true | _ => False end) vs).
+    { intros H1 H2. rewrite forallb_forall in H1, H2. apply Forall_forall. intros v Hv.
+      specialize (H1 v Hv). specialize (H2 v Hv). unfold msg_typed_elem in H1. rewrite Hk in H1.
+      destruct v as [s| |]; try discriminate. cbn [msg_szok_elem] in H2.
+      apply andb_true_iff in H1. destruct H1 as [Hok _]. split; assumption. }
+    assert (Hexp : forallb (msg_typed_elem slow eb tv fd) vs = true ->
+                   forallb (msg_szok_elem (msg_size_body S) (msg_sizes_ok S) (KS sk)) vs = true ->
+                   (length (flat_map (fun e => msg_enc_elem eb (f_num fd) (KS sk) e) vs ++ tail) < length g)%nat ->
+                   exists g2, (length tail < length g2)%nat /\
+                     dm (Datatypes.S d) tid grp g (flat_map (fun e => msg_enc_elem eb (f_num fd) (KS sk) e) vs ++ tail) (accf, U) =
+                     dm (Datatypes.S d) tid grp g2 tail (accf, U ++ flat_map (fun e => msg_enc_elem eb (f_num fd) (KS sk) e) vs)).
+    { intros H1 H2 Hgv. apply msg_dm_deleted_elems; try assumption. apply Hgood; assumption. }
+    destruct (f_card fd) as [| | | | |kk kutf8 vdef] eqn:Hc.
+    - destruct vs as [|v [|]]; try discriminate. apply Hexp; try assumption. cbn [forallb]. rewrite Hty. reflexivity.
+    - destruct vs as [|v [|]]; try discriminate. apply andb_true_iff in Hty. destruct Hty as [Hty _].
+      apply Hexp; try assumption. cbn [forallb]. rewrite Hty. reflexivity.
+    - destruct vs as [|v [|]]; try discriminate. apply Hexp; try assumption. cbn [forallb]. rewrite Hty. reflexivity.
+    - apply Hexp; try assumption. destruct vs; [discriminate|exact Hty].
+    - assert (Htyv : forallb (msg_typed_elem slow eb tv fd) vs = true) by (destruct vs; [discriminate|exact Hty]).
+      destruct vs as [|v0 vs']; [discriminate|].
+      destruct (msg_packable sk) eqn:Hp.
+      + apply andb_true_iff in Hsz. destruct Hsz as [Hszv Hplen].
+        pose proof (msg_packed_eq (msg_size_body S) (msg_sizes_ok S) sk (v0 :: vs') Hszv) as Hpe.
+        assert (Hlen : N.of_nat (length (msg_enc_packed_payload sk (v0 :: vs'))) < 2^64)
+          by (rewrite <- Hpe, <- msg_two64_eq; lia).
+        rewrite <- !app_assoc in *.
+        destruct (msg_dm_deleted_len (f_num fd) (msg_enc_packed_payload sk (v0 :: vs')) accf U tail g Hlo' Hhi' Hnone Hlen Hg) as (g2 & Hg2 & E).
+        exists g2. split; [exact Hg2|]. etransitivity; [exact E|]. try rewrite <- !app_assoc; reflexivity.
+      + apply Hexp; assumption.
+    - apply andb_true_iff in Hty. destruct Hty as [Hty _].
+      apply andb_true_iff in Hty. destruct Hty as [_ Hty].
+      assert (Htye : forallb (msg_typed_entry tv2 fd kk kutf8) vs = true) by (destruct vs; [discriminate|exact Hty]).
+      apply msg_dm_deleted_entries; try assumption.
+      rewrite forallb_forall in Htye, Hsz. apply Forall_forall. intros e He. split; [apply Hsz, He|].
+      specialize (Htye e He). unfold msg_typed_entry in Htye. rewrite Hk in Htye.
+      destruct e as [|?|key [s| |]]; try discriminate; try exact I;
+        apply andb_true_iff in Htye; destruct Htye as [_ Htye]; discriminate.
+  Qed.
+End EvoDec.
+
+Lemma msg_flat_map_ext_in {A B} (f g : A -> list B) l : (forall x, In x l -> f x = g x) -> flat_map f l = flat_map g l.
+Proof.
+  induction l as [|a l IH]; intros H; [reflexivity|]. cbn [flat_map].
+  rewrite (H a (or_introl eq_refl)), IH; [reflexivity|]. intros x Hx. apply H. right. exact Hx.
+Qed.
+
+(* deleting fields only makes the message type reject more *)
+Lemma msg_rejects_filter (f : N -> bool) md h num typ :
+  msg_rejects md h num typ = true -> msg_rejects (filter (fun fd => f (f_num fd)) md) h num typ = true.
+Proof. unfold msg_rejects. rewrite msg_find_filter. destruct (f num); [exact (fun H => H)|reflexivity]. Qed.
+
+Lemma msg_unknown_ok_filter (f : N -> bool) md h : forall g u,
+  msg_unknown_ok true md h g u = true -> msg_unknown_ok true (filter (fun fd => f (f_num fd)) md) h g u = true.
+Proof.
+  induction g as [|x g IH]; intros u H; [discriminate|]. cbn [msg_unknown_ok] in *.
+  destruct u as [|b0 u0]; [reflexivity|].
+  destruct (dec_tag (b0 :: u0)) as [[[num typ] r]|e]; [|discriminate].
+  destruct (parse_val default_dep num typ r) as [[w r']|e]; [|discriminate].
+  repeat (apply andb_true_iff in H; destruct H as [H ?]).
+  repeat (apply andb_true_iff; split); try assumption.
+  - apply msg_rejects_filter; assumption.
+  - apply IH; assumption.
+Qed.
+
+Section EvoFlat.
+  Variable S : schema.
+  Variable keep : nat -> N -> bool.
+  Notation S' := (msg_restrict keep S).
+  Notation dm' := (msg_decode_msg true S').
+  Notation eb := (msg_enc_body S).
+  Notation eb' := (msg_enc_body S').
+  Variables (d : nat) (md : mdesc) (fs : fields).
+  Hypothesis Hmd : nth_error S O = Some md.
+  Notation md' := (filter (fun fd => keep O (f_num fd)) md).
+  Notation has2 := (match d with O => false | _ => true end).
+  Notation tv2 := (fun t x => match d with O => false | Datatypes.S d1 => msg_typed true S d1 t x end).
+  Notation kp := (fun p : N * list value => keep O (fst p)).
+  Notation chunk := (fun p => snd (msg_enc_chunk eb md p)).
+
+  Hypothesis Hchunks : forall p, In p fs -> msg_typed_chunk true eb (msg_typed true S d) tv2 has2 md p = true.
+  Hypothesis Hszc : forall p, In p fs -> msg_szok_chunk (msg_size_body S) (msg_sizes_ok S) md p = true.
+  Hypothesis Hone : msg_oneofs_ok md fs = true.
+  Hypothesis Hflat : msg_flat md fs = true.
+
+  Lemma msg_restrict_md' : nth_error S' O = Some md'.
+  Proof. unfold msg_restrict. rewrite msg_restrict_from_nth, Hmd. reflexivity. Qed.
+
+  Lemma msg_evo_field_of p : In p fs ->
+    exists fd sk, msg_find_field md (fst p) = Some fd /\ f_num fd = fst p /\ f_kind fd = KS sk.
+  Proof.
+    intros Hp. unfold msg_flat in Hflat. rewrite forallb_forall in Hflat. specialize (Hflat p Hp).
+    destruct (msg_find_field md (fst p)) as [fd|] eqn:Hf; [|discriminate].
+    unfold msg_scalar_kind in Hflat. destruct (f_kind fd) as [sk| |] eqn:Hk; try discriminate.
+    exists fd, sk. split; [reflexivity|]. split; [exact (msg_find_field_num _ _ _ Hf)|exact Hk].
+  Qed.
+
+  (* decoding the encoding (full schema) of the fields P with the reduced schema: kept fields are
+     decoded, the others are retained, in the order of the input *)
+  Lemma msg_evo_chunks grp : forall P accf U tail g,
+    (forall p, In p P -> In p fs) ->
+    NoDup (msg_keys P ++ msg_keys accf) ->
+    (forall k, In k (msg_keys accf) -> In k (msg_keys fs)) ->
+    (length (flat_map chunk P ++ tail) < length g)%nat ->
+    exists g2, (length tail < length g2)%nat /\
+      dm' (Datatypes.S d) O grp g (flat_map chunk P ++ tail) (accf, U) =
+      dm' (Datatypes.S d) O grp g2 tail
+          (msg_ins_all (filter kp P) accf, U ++ flat_map chunk (filter (fun p => negb (kp p)) P)).
+  Proof.
+    induction P as [|p P IH]; intros accf U tail g Hin Hnd Hsub Hg.
+    - exists g. cbn [flat_map app filter msg_ins_all fold_left] in *. rewrite app_nil_r. split; [exact Hg|reflexivity].
+    - assert (Hp : In p fs) by (apply Hin; left; reflexivity).
+      destruct (msg_evo_field_of p Hp) as (fd & sk & Hf & Hnum & Hk).
+      pose proof (Hchunks p Hp) as Hty. pose proof (Hszc p Hp) as Hsz.
+      unfold msg_typed_chunk in Hty. unfold msg_szok_chunk in Hsz. rewrite Hf in Hty, Hsz.
+      assert (Hc : chunk p = msg_enc_field eb fd (snd p)) by (unfold msg_enc_chunk; rewrite Hf; reflexivity).
+      cbn [flat_map filter] in *. cbv beta in Hc. rewrite Hc in *. rewrite <- app_assoc in *.
+      cbn [msg_keys map app] in Hnd. fold (msg_keys P) in Hnd.
+      assert (HinP : forall q, In q P -> In q fs) by (intros q Hq; apply Hin; right; exact Hq).
+      destruct (keep O (fst p)) eqn:Hkeep; cbn [negb].
+      + (* kept *)
+        assert (Hf' : msg_find_field md' (f_num fd) = Some fd).
+        { rewrite (msg_find_filter (keep O)), Hnum, Hkeep, Hf. reflexivity. }
+        assert (Hnot : ~ In (f_num fd) (msg_keys accf)).
+        { rewrite Hnum. inversion Hnd as [|? ? Hn _]; subst. intros Hk'. apply Hn, in_or_app. right. exact Hk'. }
+        assert (Hfree : msg_oneof_free md' fd (f_num fd :: msg_keys accf)).
+        { pose proof (msg_oneofs_ok_free md fs p fd Hone Hp Hf) as Hfr.
+          intros oi Hoi fd' Hin' Hoi' Hne Hk'. apply filter_In in Hin'. destruct Hin' as [Hin' _].
+          apply (Hfr oi Hoi fd' Hin' Hoi' Hne).
+          destruct Hk' as [Hk'|Hk']; [congruence|apply Hsub; exact Hk']. }
+        rewrite (msg_enc_field_scalar eb eb' fd (snd p) sk Hk) in *.
+        destruct (msg_field_step true S' d O md' grp msg_restrict_md' fd (snd p) accf U
+                    (flat_map chunk P ++ tail) g Hf') as (g1 & Hg1 & E1); try assumption.
+        * rewrite <- (msg_typed_field_scalar true eb (msg_typed true S d) tv2 eb' (msg_typed true S' d)
+                        (fun t x => match d with O => false | Datatypes.S d1 => msg_typed true S' d1 t x end)
+                        has2 fd (snd p) sk Hk). exact Hty.
+        * rewrite <- (msg_szok_field_scalar (msg_size_body S) (msg_sizes_ok S) (msg_size_body S') (msg_sizes_ok S') fd (snd p) sk Hk).
+          exact Hsz.
+        * apply Forall_forall. intros v _. apply msg_dec_stmt_all.
+        * destruct (IH (msg_fset accf (f_num fd) (snd p)) U tail g1 HinP) as (g2 & Hg2 & E2).
+          -- rewrite Hnum. apply msg_nodup_step. exact Hnd.
+          -- intros k Hk'. apply msg_keys_fset in Hk'. destruct Hk' as [->|Hk']; [|apply Hsub; exact Hk'].
+             rewrite Hnum. apply (in_map fst fs p). exact Hp.
+          -- exact Hg1.
+          -- exists g2. split; [exact Hg2|]. etransitivity; [exact E1|]. etransitivity; [exact E2|].
+             cbn [msg_ins_all fold_left]. rewrite Hnum. reflexivity.
+      + (* deleted *)
+        assert (Hnone : msg_find_field md' (f_num fd) = None).
+        { rewrite (msg_find_filter (keep O)), Hnum, Hkeep. reflexivity. }
+        destruct (msg_dm_deleted_field S' d O md' grp msg_restrict_md' S true (msg_typed true S d) tv2 has2 fd (snd p) sk
+                    accf U (flat_map chunk P ++ tail) g Hk Hnone Hty Hsz Hg) as (g1 & Hg1 & E1).
+        destruct (IH accf (U ++ msg_enc_field eb fd (snd p)) tail g1 HinP) as (g2 & Hg2 & E2).
+        * inversion Hnd; assumption.
+        * exact Hsub.
+        * exact Hg1.
+        * exists g2. split; [exact Hg2|]. etransitivity; [exact E1|]. etransitivity; [exact E2|].
+          cbn [flat_map]. rewrite Hc. rewrite <- !app_assoc. reflexivity.
+  Qed.
+End EvoFlat.
+
+Lemma msg_nodup_app_l {A} (a b : list A) : NoDup (a ++ b) -> NoDup a.
+Proof.
+  induction a as [|x a IH]; [constructor|]. cbn [app]. intros H. inversion H as [|? ? Hn Hd]; subst.
+  constructor; [intros Hx; apply Hn, in_or_app; left; exact Hx|exact (IH Hd)].
+Qed.
+
+Ltac msg_rew_dm E :=
+  match type of E with _ = ?R =>
+    match goal with |- match ?X with DOk _ => _ | DErr _ => _ end = _ => replace X with R by (symmetry; exact E) end end.
+
+(* schema evolution for messages whose populated fields are all of scalar kind: decode with the
+   reduced schema, re-encode with it, decode with the full schema *)
+Theorem msg_schema_evolution_flat slow S keep limit fs unk :
+  msg_valid slow S limit O (VMsg fs unk) = true ->
+  msg_valid true S limit O (VMsg fs unk) = true ->
+  msg_flat (nth O S []) fs = true ->
+  msg_evolve slow S (msg_restrict keep S) limit (msg_encode S O (VMsg fs unk)) = DOk (VMsg fs unk).
+Proof.
+  intros Hv Hvt Hflat.
+  unfold msg_valid in Hv, Hvt. apply andb_true_iff in Hv. destruct Hv as [Hsz Hty].
+  apply andb_true_iff in Hvt. destruct Hvt as [_ Htyt].
+  destruct (msg_typed_unfold true S limit O fs unk Htyt) as (d & md & -> & Hmd & Hsorted & Hchunks & Hone & Hunk).
+  destruct (msg_typed_unfold slow S _ O fs unk Hty) as (d0 & md0 & Hd0 & Hmd0 & _ & Hchunks0 & _ & Hunk0).
+  inversion Hd0; subst d0. rewrite Hmd in Hmd0. inversion Hmd0; subst md0. clear Hd0 Hmd0.
+  pose proof (msg_sizes_ok_unfold S O fs unk Hsz) as Hszc.
+  rewrite (msg_nth_error_nth S O md Hmd) in Hszc, Hflat.
+  rewrite forallb_forall in Hchunks, Hchunks0, Hszc.
+  apply msg_keys_sorted_spec in Hsorted.
+  set (S' := msg_restrict keep S).
+  set (md' := filter (fun fd => keep O (f_num fd)) md).
+  pose proof (msg_restrict_md' S keep md Hmd) as Hmd'. fold S' md' in Hmd'.
+  destruct (msg_enc_body_perm S O fs unk) as (P & Hperm & Ebody).
+  rewrite (msg_nth_error_nth S O md Hmd) in Ebody.
+  assert (HinP : forall p, In p P -> In p fs) by (intros p Hp; eapply Permutation_in; [exact Hperm|exact Hp]).
+  assert (HndP : NoDup (msg_keys P)).
+  { eapply Permutation_NoDup; [apply Permutation_sym, (Permutation_map fst), Hperm|].
+    eapply msg_sorted_nodup. exact Hsorted. }
+  set (kp := fun p : N * list value => keep O (fst p)).
+  set (chunk := fun p => snd (msg_enc_chunk (msg_enc_body S) md p)).
+  set (KP := filter kp P). set (DP := filter (fun p => negb (kp p)) P).
+  (* 1. decode with the reduced schema *)
+  assert (Hdec1 : msg_decode true S' (Datatypes.S d) O (msg_encode S O (VMsg fs unk)) =
+                  DOk (VMsg (msg_ins_all KP []) (flat_map chunk DP ++ unk))).
+  { unfold msg_decode, msg_decode_into, msg_encode, msg_empty. cbn [msg_macc_of]. rewrite Ebody.
+    destruct (msg_evo_chunks S keep d md fs Hmd Hchunks Hszc Hone Hflat 0 P [] [] unk
+                (x00 :: flat_map chunk P ++ unk)) as (g1 & Hg1 & E1);
+      [exact HinP|cbn [msg_keys map]; rewrite app_nil_r; exact HndP|intros k []|exact (Nat.lt_succ_diag_r _)|].
+    fold S' in E1. msg_rew_dm E1.
+    cbn [app]. fold KP DP chunk.
+    destruct (msg_unknown_loop true S' d O md' 0 Hmd' (x00 :: unk) unk g1 (msg_ins_all KP []) (flat_map chunk DP) []
+                (msg_unknown_ok_filter (keep O) md _ _ _ Hunk)) as (g2 & Hg2 & E2); [rewrite app_nil_r; exact Hg1|].
+    rewrite app_nil_r in E2. msg_rew_dm E2.
+    rewrite (msg_dm_end0 true S' d O md' g2 _ Hmd') by lia. reflexivity. }
+  unfold msg_evolve. fold S'. rewrite Hdec1.
+  (* 2. the re-encoding: the kept fields in some order, then the deleted ones, then the unknown bytes *)
+  destruct (msg_enc_body_perm S' O (msg_ins_all KP []) (flat_map chunk DP ++ unk)) as (P2 & Hperm2 & Ebody2).
+  rewrite (msg_nth_error_nth S' O md' Hmd') in Ebody2.
+  assert (HndK : NoDup (msg_keys KP ++ msg_keys [])).
+  { cbn [msg_keys map]. rewrite app_nil_r.
+    pose proof (Permutation_map fst (msg_perm_filter_split kp P)) as Hpm. rewrite map_app in Hpm.
+    apply (Permutation_NoDup (Permutation_sym Hpm)) in HndP. exact (msg_nodup_app_l _ _ HndP). }
+  destruct (msg_ins_all_props KP [] 0 HndK I) as [HsK HpK].
+  { intros k Hk. apply (msg_sorted_keys_gt 0 fs Hsorted).
+    apply in_map_iff in Hk. destruct Hk as (p & <- & Hp). apply filter_In in Hp. destruct Hp as [Hp _].
+    apply (in_map fst). exact (HinP p Hp). }
+  rewrite app_nil_r in HpK.
+  assert (HinP2 : forall p, In p P2 -> In p P /\ kp p = true).
+  { intros p Hp. apply (Permutation_in _ Hperm2) in Hp. apply (Permutation_in _ HpK) in Hp.
+    apply filter_In in Hp. exact Hp. }
+  assert (Echunks : flat_map (fun p => snd (msg_enc_chunk (msg_enc_body S') md' p)) P2 = flat_map chunk P2).
+  { apply msg_flat_map_ext_in. intros p Hp. destruct (HinP2 p Hp) as [HpP Hkp].
+    destruct (msg_evo_field_of md fs Hflat p (HinP p HpP)) as (fd & sk & Hf & Hnum & Hk).
+    unfold chunk, msg_enc_chunk. unfold md'. rewrite (msg_find_filter (keep O)). unfold kp in Hkp. rewrite Hkp, Hf.
+    cbn [snd]. symmetry. apply (msg_enc_field_scalar _ _ fd (snd p) sk Hk). }
+  unfold msg_encode. rewrite Ebody2, Echunks.
+  (* 3. decode with the full schema: a permutation of the fields of the message *)
+  set (P3 := P2 ++ DP).
+  assert (Hperm3 : Permutation P3 fs).
+  { unfold P3. rewrite Hperm2, HpK. unfold KP, DP. rewrite (msg_perm_filter_split kp P). exact Hperm. }
+  assert (E3 : flat_map chunk P2 ++ flat_map chunk DP ++ unk = flat_map chunk P3 ++ unk).
+  { unfold P3. rewrite flat_map_app, <- app_assoc. reflexivity. }
+  rewrite E3.
+  assert (HinP3 : forall p, In p P3 -> In p fs) by (intros p Hp; eapply Permutation_in; [exact Hperm3|exact Hp]).
+  assert (Hgood : Forall (msg_chunk_good slow S d md) P3).
+  { apply Forall_forall. intros p Hp. specialize (HinP3 p Hp). repeat split.
+    - apply Hchunks0, HinP3.
+    - apply Hszc, HinP3.
+    - apply Forall_forall. intros v _. apply msg_dec_stmt_all. }
+  assert (Hnd3 : NoDup (msg_keys P3 ++ msg_keys [])).
+  { cbn [msg_keys map]. rewrite app_nil_r. eapply Permutation_NoDup.
+    - apply Permutation_sym. apply (Permutation_map fst). exact Hperm3.
+    - eapply msg_sorted_nodup. exact Hsorted. }
+  unfold msg_decode, msg_decode_into, msg_empty. cbn [msg_macc_of].
+  destruct (msg_chunks_step slow S d O md 0 Hmd fs Hone P3 [] [] unk (x00 :: flat_map chunk P3 ++ unk) Hgood HinP3 Hnd3)
+    as (g3 & Hg3 & E4); [intros k []|exact (Nat.lt_succ_diag_r _)|].
+  fold chunk in E4.
+  msg_rew_dm E4.
+  assert (Hins : msg_ins_all P3 [] = fs).
+  { destruct (msg_ins_all_props P3 [] 0 Hnd3 I) as [Hs Hp].
+    - intros k Hk. apply (msg_sorted_keys_gt 0 fs Hsorted).
+      eapply Permutation_in; [apply (Permutation_map fst); exact Hperm3|exact Hk].
+    - rewrite app_nil_r in Hp.
+      eapply msg_sorted_perm_eq; [exact Hs|exact Hsorted|]. rewrite Hp. exact Hperm3. }
+  rewrite Hins.
+  destruct (msg_unknown_loop slow S d O md 0 Hmd (x00 :: unk) unk g3 fs [] [] Hunk0) as (g4 & Hg4 & E5);
+    [rewrite app_nil_r; exact Hg3|].
+  rewrite app_nil_r in E5. cbn [app] in E5. msg_rew_dm E5.
+  rewrite (msg_dm_end0 slow S d O md g4 _ Hmd) by lia. reflexivity.
+Qed.
+
+(* non-vacuity: the scalar-kinded part of the C03 example *)
+Definition ex_flat_fs : fields :=
+  [ (1, [VS (SZ (-2147483648))]); (2, [VS (SBy [x68; x69])]); (3, [VS (SZ (-1)); VS (SZ 9223372036854775807)]);
+    (4, [VS (SN 4294967295); VS (SN 0)]); (8, [VS (SBy [])]); (10, [VS (SN 9221120237041090561)]);
+    (11, [VS (SZ (-5))]); (12, [VEntry (SZ (-7)) (VS (SZ 1)); VEntry (SZ 3) (VS (SZ 0))]);
+    (100, [VS (SN 18446744073709551615)]) ].
+Example ex_flat_ok :
+  msg_valid false ex_schema 3 O (VMsg ex_flat_fs []) = true /\ msg_valid true ex_schema 3 O (VMsg ex_flat_fs []) = true /\
+  msg_flat (nth O ex_schema []) ex_flat_fs = true.
+Proof. vm_compute. repeat split; reflexivity. Qed.
